@@ -160,3 +160,9 @@ func short(s string, n int) string {
 	}
 	return s[:n] + "…"
 }
+
+// pick draws an element with a flatter distribution than rapid.SampledFrom (whose integer
+// generator favours small indexes); shrinking still moves towards the first element.
+func pick[T any](t *rapid.T, label string, xs []T) T {
+	return xs[int(rapid.Uint64().Draw(t, label)%uint64(len(xs)))]
+}
